@@ -145,6 +145,31 @@ var receiverWrites = []string{}
 // runtime.NumCPU / GOMAXPROCS, math/rand): what a call does may depend on the moment and the place only there.
 var ambientReads = []string{}
 
+// goStatements: every function that starts a goroutine, with how many `go` statements it has: the inventory of
+// concurrency inside the library (the discovery collector, the listener's reader and dispatcher, the TCP / UDP helpers)
+var goStatements = []string{}
+
+func startsGoroutines(rel string, fd *ast.FuncDecl) []string {
+	if fd.Body == nil {
+		return nil
+	}
+	name := fd.Name.Name
+	if fd.Recv != nil && len(fd.Recv.List) == 1 {
+		name = strings.TrimPrefix(src(fd.Recv.List[0].Type), "*") + "." + name
+	}
+	n := 0
+	ast.Inspect(fd.Body, func(x ast.Node) bool {
+		if _, ok := x.(*ast.GoStmt); ok {
+			n++
+		}
+		return true
+	})
+	if n == 0 {
+		return nil
+	}
+	return []string{fmt.Sprintf("%s:%s: %d", rel, name, n)}
+}
+
 var ambientNames = map[string]bool{
 	"time.Now": true, "time.Since": true, "time.Until": true, "time.Local": true,
 	"os.Getenv": true, "os.LookupEnv": true, "os.Environ": true, "os.Hostname": true, "os.Getwd": true, "os.Getpid": true, "os.Args": true,
@@ -218,6 +243,7 @@ func genSource(repo, out string) {
 				}
 				if fd, ok := d.(*ast.FuncDecl); ok {
 					ambientReads = append(ambientReads, readsAmbient(rel, fd)...)
+					goStatements = append(goStatements, startsGoroutines(rel, fd)...)
 				}
 				// an operation of the regular shape  guards* ; request := messages.X{…} ; … sendto[T](…) …  is also
 				// entered in four parts, so that a property depends only on the part its model transcribes
@@ -304,6 +330,13 @@ func genSource(repo, out string) {
 	for i, w := range ambientReads {
 		if i > 0 {
 			b.WriteString(",\n  ")
+		}
+		b.WriteString(leanStr(w))
+	}
+	b.WriteString("]\n\n/-- every function that starts goroutines, with the number of its `go` statements -/\ndef goStatements : List String := [")
+	for i, w := range goStatements {
+		if i > 0 {
+			b.WriteString(", ")
 		}
 		b.WriteString(leanStr(w))
 	}
